@@ -22,7 +22,9 @@ import (
 
 var vhIntervals = []time.Duration{0, 500 * time.Millisecond, time.Second, 3 * time.Second}
 
-func VH_C18_limiter() {
+// VH_C18_create: the limiter is built from exactly the hook's settings, whatever
+// bindings the hook declares.
+func VH_C18_create() {
 	// (a) the limiter is built from exactly the hook's settings
 	cfg := &config.HookConfig{Version: "v1"}
 	hasSettings := zz.Bool("has_settings")
@@ -30,6 +32,19 @@ func VH_C18_limiter() {
 	burst := zz.IntRange("burst", 0, 5)
 	if hasSettings {
 		cfg.Settings = &htypes.Settings{ExecutionMinInterval: vhIntervals[ii], ExecutionBurst: burst}
+	}
+	// the limiter depends on the settings only, not on which and how many bindings the hook has
+	for i, nk := 0, zz.Len("kubernetes_bindings", 0, 3); i < nk; i++ {
+		cfg.OnKubernetesEvents = append(cfg.OnKubernetesEvents, htypes.OnKubernetesEventConfig{})
+	}
+	for i, ns := 0, zz.Len("schedule_bindings", 0, 2); i < ns; i++ {
+		cfg.Schedules = append(cfg.Schedules, htypes.ScheduleConfig{})
+	}
+	if zz.Bool("on_startup_binding") {
+		cfg.OnStartup = &htypes.OnStartupConfig{}
+	}
+	for i, nv := 0, zz.Len("validating_bindings", 0, 2); i < nv; i++ {
+		cfg.KubernetesValidating = append(cfg.KubernetesValidating, htypes.ValidatingConfig{})
 	}
 	lim := hook.CreateRateLimiter(cfg)
 	if !hasSettings {
@@ -44,7 +59,10 @@ func VH_C18_limiter() {
 		zz.Assert(zz.Implies(burst != 0, lim.Burst() == burst), "burst_is_execution_burst")
 		zz.Assert(zz.Implies(burst == 0, lim.Burst() == 1), "burst_defaults_to_one")
 	}
+	zz.Reach("end")
+}
 
+func VH_C18_limiter() {
 	// (b) each execution waits once on its own hook's limiter
 	e := vhNewEnv()
 	hA := e.addHook("hookA", &config.HookConfig{Version: "v1"})
